@@ -572,4 +572,255 @@ theorem residual_to_fixed_point (m : MDP) (hγ0 : 0 ≤ m.γ) (hγ1 : m.γ < 1) 
   have := approx_fixed_points_close m hγ0 hγ1 hT V W r 0 hV (fun s hs => by rw [hW s hs]; simp)
   simpa using this
 
+/-! ## `vi_stop_bound`: what the tolerance stopping rule guarantees -/
+
+/-- loop invariant of the tolerance-driven loop: once a pass has run, the current values are the backup of some
+    previous iterate and `variation` is their max-norm distance -/
+def VITolInv (m : MDP) (st : VIState) : Prop :=
+  st.timestep = 0 ∨ ∃ prev : Nat → Rat,
+    (∀ s, s < m.S → st.vf.values.get s = bellman m prev s) ∧ st.variation = maxAbsDiff m.S st.vf.values.get prev
+
+theorem viLoop_tol (m : MDP) (rep : Rep) (hrep : RepOK m rep) (hA : 0 < m.A) (tol : Rat) :
+    ∀ (fuel : Nat) (st : VIState), VIShape m st → VITolInv m st →
+      VIShape m (viLoop m rep (immRewards m rep) true tol fuel st) ∧
+      VITolInv m (viLoop m rep (immRewards m rep) true tol fuel st) ∧
+      st.timestep ≤ (viLoop m rep (immRewards m rep) true tol fuel st).timestep ∧
+      ((viLoop m rep (immRewards m rep) true tol fuel st).variation ≤ tol ∨
+       (viLoop m rep (immRewards m rep) true tol fuel st).timestep = st.timestep + fuel) ∧
+      (tol < st.variation → 0 < fuel → st.timestep < (viLoop m rep (immRewards m rep) true tol fuel st).timestep) := by
+  intro fuel
+  induction fuel with
+  | zero => intro st hsh hinv; exact ⟨hsh, hinv, le_refl _, Or.inr rfl, fun _ h => absurd h (lt_irrefl 0)⟩
+  | succ fuel ih =>
+    intro st hsh hinv
+    by_cases hgt : tol < st.variation
+    · obtain ⟨hsh', hval, _, _, hts, hvar⟩ := viStep_spec m rep hrep hA true st hsh
+      have hinv' : VITolInv m (viStep m rep (immRewards m rep) true st) :=
+        Or.inr ⟨st.vf.values.get, hval, by rw [hvar]; simp⟩
+      obtain ⟨i1, i2, i3, i4, _⟩ := ih _ hsh' hinv'
+      have e : viLoop m rep (immRewards m rep) true tol (fuel+1) st
+          = viLoop m rep (immRewards m rep) true tol fuel (viStep m rep (immRewards m rep) true st) := by
+        conv => lhs; unfold viLoop
+        simp [hgt]
+      rw [e]
+      refine ⟨i1, i2, by omega, ?_, fun _ _ => by omega⟩
+      rcases i4 with h | h
+      · exact Or.inl h
+      · exact Or.inr (by rw [h, hts]; omega)
+    · have e : viLoop m rep (immRewards m rep) true tol (fuel+1) st = st := by
+        conv => lhs; unfold viLoop
+        simp [hgt]
+      rw [e]
+      exact ⟨hsh, hinv, le_refl _, Or.inl (not_lt.mp hgt), fun h => absurd h hgt⟩
+
+/-- **vi_stop_bound.**  For a positive tolerance that enables the stopping rule and horizon h ≥ 1 (default start),
+    `ValueIteration(h, tol)(model)` returns values `V` and a variation `ε` with
+    * ε ≤ tol, or all h passes were used;
+    * Bellman residual ‖BV − V‖∞ ≤ γ·ε;
+    * ‖V − V*‖∞ ≤ γ·ε/(1−γ) for every solution V* of the optimality equation. -/
+theorem vi_stop_bound (m : MDP) (rep : Rep) (hrep : RepOK m rep) (hA : 0 < m.A) (hγ0 : 0 ≤ m.γ) (hγ1 : m.γ < 1)
+    (hT : ValidT m) (h : Nat) (hh : 0 < h) (tol : Rat) (htol0 : 0 < tol) (htol : useTolerance tol = true) :
+    let out := valueIteration m rep h tol none
+    (out.variation ≤ tol ∨ out.timestep = h) ∧
+    (∀ s, s < m.S → |bellman m out.vf.values.get s - out.vf.values.get s| ≤ m.γ * out.variation) ∧
+    (∀ W, IsFixedPoint m W → ∀ s, s < m.S → |out.vf.values.get s - W s| ≤ m.γ * out.variation / (1 - m.γ)) := by
+  intro out
+  have hsh := makeVF_shape m (makeQ m.S m.A) (tol * 2) 0
+  have hinv0 : VITolInv m ⟨makeVF m.S, makeQ m.S m.A, tol * 2, 0⟩ := Or.inl rfl
+  obtain ⟨_, hinv, _, hstop, hprog⟩ := viLoop_tol m rep hrep hA tol h _ hsh hinv0
+  have hstep := hprog (by show tol < tol * 2; linarith) hh
+  have hres : ∀ s, s < m.S → |bellman m out.vf.values.get s - out.vf.values.get s| ≤ m.γ * out.variation := by
+    intro s hs
+    simp only [out, valueIteration, htol, if_true]
+    rcases hinv with h0 | ⟨prev, hp1, hp2⟩
+    · simp only at hstep; omega
+    · rw [hp1 s hs, hp2]
+      apply bellman_contraction m _ _ _ hγ0 hT
+      intro u hu
+      exact maxAbsDiff_ge m.S _ _ u hu
+  refine ⟨?_, hres, ?_⟩
+  · simp only [out, valueIteration, htol, if_true]
+    rcases hstop with h1 | h1
+    · exact Or.inl h1
+    · exact Or.inr (by rw [h1]; simp)
+  · intro W hW s hs
+    exact residual_to_fixed_point m hγ0 hγ1 hT _ W _ hres hW s hs
+
+/-! ## linear program: feasible points dominate V*, V* is feasible, hence V* is the unique minimiser -/
+
+theorem sumTo_indicator (n : Nat) (V : Nat → Rat) (s : Nat) (hs : s < n) :
+    sumTo n (fun s1 => (if s1 = s then (1 : Rat) else 0) * V s1) = V s := by
+  induction n with
+  | zero => omega
+  | succ n ih =>
+    simp only [sumTo]
+    rcases Nat.lt_or_ge s n with h | h
+    · rw [ih h, if_neg (by omega)]; ring
+    · have : s = n := by omega
+      subst this
+      have hz : sumTo s (fun s1 => (if s1 = s then (1 : Rat) else 0) * V s1) = 0 := by
+        have : sumTo s (fun s1 => (if s1 = s then (1 : Rat) else 0) * V s1) = sumTo s (fun _ => 0) := by
+          apply sumTo_congr
+          intro i hi
+          rw [if_neg (by omega)]; ring
+        rw [this]
+        clear this ih hs h
+        induction s with
+        | zero => rfl
+        | succ k ihk => simp [sumTo, ihk]
+      rw [hz]; simp
+
+theorem sumTo_add (n : Nat) (f g : Nat → Rat) : sumTo n (fun i => f i + g i) = sumTo n f + sumTo n g := by
+  induction n with
+  | zero => simp [sumTo]
+  | succ n ih => simp only [sumTo, ih]; ring
+
+theorem sumTo_mul_left (n : Nat) (c : Rat) (f : Nat → Rat) : sumTo n (fun i => c * f i) = c * sumTo n f := by
+  induction n with
+  | zero => simp [sumTo]
+  | succ n ih => simp only [sumTo, ih]; ring
+
+/-- the LP row of (s,a), as built by `LinearProgramming::operator()` on either path, reads `V(s) − (R(s,a) + γ Σ T V) ≥ 0` -/
+theorem lpSlack_eq (m : MDP) (rep : Rep) (hrep : RepOK m rep) (V : Nat → Rat) {s a : Nat} (hs : s < m.S) (ha : a < m.A) :
+    lpSlack m rep V s a = V s - qBackup m V s a := by
+  have hr : lpRhs m rep s a = m.R s a := by
+    cases rep with
+    | eigen => rfl
+    | generic => simp only [lpRhs, immRewardFn, accTo_eq, zero_add]; exact (hrep s a hs ha).symm
+  unfold lpSlack qBackup
+  rw [hr]
+  have : sumTo m.S (fun s1 => lpCoeff m s a s1 * V s1)
+      = sumTo m.S (fun s1 => -(m.T s a s1 * (V s1 * m.γ)) + (if s1 = s then (1 : Rat) else 0) * V s1) := by
+    apply sumTo_congr
+    intro i _
+    unfold lpCoeff
+    ring
+  rw [this, sumTo_add, sumTo_indicator m.S V s hs]
+  have : sumTo m.S (fun s1 => -(m.T s a s1 * (V s1 * m.γ))) = -sumTo m.S (fun s1 => m.T s a s1 * (V s1 * m.γ)) := by
+    have := sumTo_mul_left m.S (-1) (fun s1 => m.T s a s1 * (V s1 * m.γ))
+    simp only [neg_mul, one_mul] at this
+    exact this
+  rw [this]; ring
+
+/-- `V` satisfies every LP row up to δ -/
+def LpFeasible (m : MDP) (rep : Rep) (V : Nat → Rat) (δ : Rat) : Prop :=
+  ∀ s a, s < m.S → a < m.A → -δ ≤ lpSlack m rep V s a
+
+theorem weighted_le (m : MDP) (hT : ValidT m) (d : Nat → Rat) (D : Rat) (hd : ∀ s, s < m.S → d s ≤ D) (s a : Nat) :
+    sumTo m.S (fun s1 => m.T s a s1 * d s1) ≤ D := by
+  have h1 : sumTo m.S (fun s1 => m.T s a s1 * d s1) ≤ sumTo m.S (fun s1 => m.T s a s1 * D) := by
+    apply sumTo_le
+    intro i hi
+    exact mul_le_mul_of_nonneg_left (hd i hi) (hT.nonneg s a i)
+  have h2 : sumTo m.S (fun s1 => m.T s a s1 * D) = D := by
+    have := sumTo_mul_left m.S D (fun s1 => m.T s a s1)
+    have e : sumTo m.S (fun s1 => m.T s a s1 * D) = sumTo m.S (fun s1 => D * m.T s a s1) := by
+      apply sumTo_congr; intro i _; ring
+    rw [e, this, hT.sum_one s a]; ring
+  linarith
+
+/-- **lp_feasible_ge_vstar.**  Every point that satisfies the LP rows up to δ lies above every solution of the optimality
+    equation up to δ/(1−γ) (δ = 0: every feasible point dominates V*).  This is what makes lp_solve's answer checkable. -/
+theorem lp_feasible_ge_vstar (m : MDP) (rep : Rep) (hrep : RepOK m rep) (hA : 0 < m.A) (hγ0 : 0 ≤ m.γ) (hγ1 : m.γ < 1)
+    (hT : ValidT m) (V W : Nat → Rat) (δ : Rat) (hV : LpFeasible m rep V δ) (hW : IsFixedPoint m W) :
+    ∀ s, s < m.S → W s - δ / (1 - m.γ) ≤ V s := by
+  intro s hs
+  have hS : 0 < m.S := by omega
+  -- largest deficit D = max_s (W s − V s), attained at t
+  obtain ⟨t, ht, hD⟩ := maxTo_attained (m.S - 1) (fun u => W u - V u)
+  have hle : ∀ u, u < m.S → W u - V u ≤ maxTo (m.S - 1) (fun u => W u - V u) :=
+    fun u hu => maxTo_ge (m.S - 1) (fun u => W u - V u) u (by omega)
+  have ht' : t < m.S := by omega
+  obtain ⟨a, ha, hmax⟩ := maxTo_attained (m.A - 1) (qBackup m W t)
+  have ha' : a < m.A := by omega
+  have hWt : W t = qBackup m W t a := by rw [← hW t ht']; exact hmax
+  have hfe := hV t a ht' ha'
+  rw [lpSlack_eq m rep hrep V ht' ha'] at hfe
+  have hdiff : qBackup m W t a - qBackup m V t a ≤ m.γ * maxTo (m.S - 1) (fun u => W u - V u) := by
+    unfold qBackup
+    have e : m.R t a + sumTo m.S (fun s1 => m.T t a s1 * (W s1 * m.γ)) - (m.R t a + sumTo m.S (fun s1 => m.T t a s1 * (V s1 * m.γ)))
+        = m.γ * sumTo m.S (fun s1 => m.T t a s1 * (W s1 - V s1)) := by
+      rw [← sumTo_mul_left]
+      have : sumTo m.S (fun s1 => m.T t a s1 * (W s1 * m.γ))
+          = sumTo m.S (fun s1 => m.T t a s1 * (V s1 * m.γ) + m.γ * (m.T t a s1 * (W s1 - V s1))) := by
+        apply sumTo_congr; intro i _; ring
+      rw [this, sumTo_add]; ring
+    rw [e]
+    exact mul_le_mul_of_nonneg_left (weighted_le m hT (fun u => W u - V u) _ hle t a) hγ0
+  have hpos : 0 < 1 - m.γ := by linarith
+  have hDle : maxTo (m.S - 1) (fun u => W u - V u) ≤ δ / (1 - m.γ) := by
+    rw [le_div_iff₀ hpos]
+    have : maxTo (m.S - 1) (fun u => W u - V u) = W t - V t := hD
+    nlinarith
+  have := hle s hs
+  linarith
+
+/-- a solution of the optimality equation satisfies every LP row exactly -/
+theorem fixedPoint_lp_feasible (m : MDP) (rep : Rep) (hrep : RepOK m rep) (hA : 0 < m.A) (W : Nat → Rat)
+    (hW : IsFixedPoint m W) : LpFeasible m rep W 0 := by
+  intro s a hs ha
+  rw [lpSlack_eq m rep hrep W hs ha, ← hW s hs]
+  have := qBackup_le_bellman m hA W s a ha
+  linarith
+
+/-- **lp_opt_is_vstar.**  V* is feasible, its objective is minimal among feasible points, and a feasible point with the
+    same objective *is* V*: the LP's unique optimum is the optimal value function. -/
+theorem lp_opt_is_vstar (m : MDP) (rep : Rep) (hrep : RepOK m rep) (hA : 0 < m.A) (hγ0 : 0 ≤ m.γ) (hγ1 : m.γ < 1)
+    (hT : ValidT m) (V W : Nat → Rat) (hV : LpFeasible m rep V 0) (hW : IsFixedPoint m W) :
+    LpFeasible m rep W 0 ∧ lpObjective m W ≤ lpObjective m V ∧
+    (lpObjective m V ≤ lpObjective m W → ∀ s, s < m.S → V s = W s) := by
+  have hge : ∀ s, s < m.S → W s ≤ V s := by
+    intro s hs
+    have := lp_feasible_ge_vstar m rep hrep hA hγ0 hγ1 hT V W 0 hV hW s hs
+    simpa using this
+  refine ⟨fixedPoint_lp_feasible m rep hrep hA W hW, ?_, ?_⟩
+  · unfold lpObjective
+    apply sumTo_le
+    intro s hs
+    have hS : (0 : Rat) < m.S := by exact_mod_cast (by omega : 0 < m.S)
+    exact mul_le_mul_of_nonneg_left (hge s hs) (le_of_lt (one_div_pos.mpr hS))
+  · intro hobj s hs
+    have hS : (0 : Rat) < m.S := by exact_mod_cast (by omega : 0 < m.S)
+    have hc : (0 : Rat) < 1 / (m.S : Rat) := one_div_pos.mpr hS
+    -- Σ (1/S)(V − W) ≤ 0 with nonnegative terms forces every term to vanish
+    have hsum : sumTo m.S (fun u => (1 / (m.S : Rat)) * (V u - W u)) ≤ 0 := by
+      have : sumTo m.S (fun u => (1 / (m.S : Rat)) * (V u - W u))
+          = lpObjective m V - lpObjective m W := by
+        unfold lpObjective
+        have e : sumTo m.S (fun u => 1 / (m.S : Rat) * V u)
+            = sumTo m.S (fun u => 1 / (m.S : Rat) * W u + 1 / (m.S : Rat) * (V u - W u)) := by
+          apply sumTo_congr; intro i _; ring
+        rw [e, sumTo_add]; ring
+      rw [this]; linarith
+    have hterm : ∀ n, n ≤ m.S → sumTo n (fun u => (1 / (m.S : Rat)) * (V u - W u)) ≤ 0 →
+        ∀ u, u < n → V u - W u ≤ 0 := by
+      intro n
+      induction n with
+      | zero => intro _ _ u hu; omega
+      | succ n ih =>
+        intro hn hle u hu
+        simp only [sumTo] at hle
+        have hnn : 0 ≤ (1 / (m.S : Rat)) * (V n - W n) := mul_nonneg (le_of_lt hc) (by linarith [hge n (by omega)])
+        have hprev : 0 ≤ sumTo n (fun u => (1 / (m.S : Rat)) * (V u - W u)) := by
+          have : sumTo n (fun _ => (0 : Rat)) ≤ sumTo n (fun u => (1 / (m.S : Rat)) * (V u - W u)) := by
+            apply sumTo_le
+            intro i hi
+            exact mul_nonneg (le_of_lt hc) (by linarith [hge i (by omega)])
+          have z : sumTo n (fun _ => (0 : Rat)) = 0 := by
+            clear this ih hle hnn hu hn
+            induction n with
+            | zero => rfl
+            | succ k ihk => simp [sumTo, ihk]
+          linarith
+        rcases Nat.lt_or_ge u n with h | h
+        · exact ih (by omega) (by linarith) u h
+        · have : u = n := by omega
+          subst this
+          have : (1 / (m.S : Rat)) * (V u - W u) ≤ 0 := by linarith
+          by_contra hcon
+          have : 0 < (1 / (m.S : Rat)) * (V u - W u) := mul_pos hc (by linarith)
+          linarith
+    have := hterm m.S (le_refl _) hsum s hs
+    linarith [hge s hs]
+
 end AITB.MDP
